@@ -214,14 +214,16 @@ theorem fact_one_encoder : Facts.auditEncoderSites = [("New", "json.NewEncoder")
 
 /-! ### the monitor clauses are the specification's own behaviour -/
 
-/-- `fail_closed`, `unchanged_silent` and `before_effect`, as evaluated by the driver on the real
+/-- `recorded` (exactly one matching record for every disclosure, state change and denial),
+`fail_closed`, `unchanged_silent` and `before_effect`, as evaluated by the driver on the real
 code's steps, hold of the specification's own step for every state, caller, operation and
 oracle choice. -/
 theorem monitors_sound (kv : KV.KV) (c : DB.Caller) (op : DB.Op) (aok sok : Bool) :
+    DBMon.c06_recorded (MonSound.obsOf kv c op aok sok) = true ∧
     DBMon.c06_fail_closed (MonSound.obsOf kv c op aok sok) = true ∧
     DBMon.c06_unchanged_silent (MonSound.obsOf kv c op aok sok) = true ∧
     DBMon.c06_before_effect (MonSound.obsOf kv c op aok sok) = true :=
-  ⟨MonSound.c06_fail_closed_sound kv c op aok sok, MonSound.c06_unchanged_silent_sound kv c op aok sok,
+  ⟨MonSound.c06_recorded_sound kv c op aok sok, MonSound.c06_fail_closed_sound kv c op aok sok, MonSound.c06_unchanged_silent_sound kv c op aok sok,
    MonSound.c06_before_effect_sound kv c op aok sok⟩
 
 end Setec.C06
